@@ -110,6 +110,37 @@ def qs_jobs(ctx, inv):
     return jobs
 
 
+def lf_consts(**kw):
+    c = {'Threads': '<-ThreadsDef', 'Locs': '<-LocsDef', 'InitVal': '<-InitValDef', 'Ord': '<-OrdCode', 'Weak': False,
+         'NT': 2, 'NG': 1, 'NCells': 1, 'NNodes': 3, 'MaxOps': 2, 'TL': 0, 'TLPopAtomic': True, 'Revalidate': True, 'ClaimOnce': True}
+    c.update(kw)
+    return c
+
+
+LF_ACTIONS = ['Begin', 'a_reset', 'd_ld', 'd_cas', 'r_claimed', 'r_lddes', 'r_stdes', 'r_dtor', 'f_push', 'fg_ldh', 'fg_stnx', 'fg_cas', 'a_ld1', 'a_faa', 'a_ld2', 'a_got',
+              'op_done', 'n_begin', 'n_ldh', 'n_faa', 'n_ldh2', 'n_ldnx', 'n_cas', 'n_fsub', 'n_stnx', 'n_fresh', 'n_ctor', 'x_cas', 'c_fsub']
+
+
+def lf_jobs(ctx, inv):
+    """lock_free_ref_count: optimistic increments on possibly freed nodes, claim bit, type-stable free lists (global + thread-local)"""
+    q = ctx.quick
+    mc = lambda name, **kw: tlc_mc(ctx, name, 'LFRC', lf_consts(**kw.pop('c', {})), invariants=kw.pop('inv', inv), view='mcview', **kw)
+    jobs = [
+        lambda: mc('lfrc_2t', workers=6, tmo=900, must_cover=LF_ACTIONS),
+        lambda: mc('lfrc_toggle_no_revalidate', c={'Revalidate': False}, inv=['Safe'], workers=3, expect='violation'),
+        lambda: mc('lfrc_toggle_claim_not_exclusive', c={'ClaimOnce': False}, inv=['Safe'], workers=3, expect='violation'),
+        lambda: mc('lfrc_toggle_tl_pop_plain_store', c={'TL': 1, 'MaxOps': 3, 'TLPopAtomic': False}, inv=['Safe'], workers=4, expect='violation'),
+    ]
+    if not q:
+        jobs += [
+            lambda: mc('lfrc_2t_tl1', c={'TL': 1, 'MaxOps': 3}, workers=10, tmo=2400, heap='24g', must_cover=['n_lfaa', 'n_lst']),
+            lambda: mc('lfrc_2t_2guards', c={'NG': 2, 'MaxOps': 2, 'NNodes': 4}, workers=10, tmo=2400, heap='24g'),
+            lambda: mc('lfrc_2t_2cells', c={'NCells': 2, 'MaxOps': 2, 'NNodes': 4}, workers=10, tmo=2400, heap='24g'),
+            lambda: mc('lfrc_3t', c={'NT': 3, 'MaxOps': 1, 'NNodes': 4}, workers=12, tmo=3000, heap='24g'),
+        ]
+    return jobs
+
+
 def run_models(ctx, pid):
     q = ctx.quick
     inv = {'C01': ['Safe'], 'C02': ['Safe', 'NoLeak'], 'C18': ['Safe', 'SlotsConserved'], 'C17': ['Safe', 'NoLeak']}[pid]
@@ -138,6 +169,8 @@ def run_models(ctx, pid):
         jobs += eb_jobs(ctx, ['Safe'] if pid == 'C01' else inv)
     if pid in ('C01', 'C02', 'C17'):
         jobs += qs_jobs(ctx, ['Safe'] if pid == 'C01' else ['Safe', 'NoLeak'])
+    if pid in ('C01', 'C02', 'C17'):
+        jobs += lf_jobs(ctx, ['Safe'] if pid == 'C01' else ['Safe', 'NoLeak', 'CountsOk'])
     if pid in ('C01', 'C02', 'C18'):
         jobs += he_jobs(ctx, {'C01': ['Safe'], 'C02': ['Safe', 'NoLeak'], 'C18': ['Safe', 'SlotsConserved']}[pid])
     run_parallel(jobs, maxw=3)
